@@ -11,7 +11,7 @@ for d in sorted(glob.glob(os.path.join(ROOT, "seeded", "*"))):
     if os.path.exists(npath):
         lines = [l.strip() for l in open(npath) if l.strip()]
         title = re.sub(r"^#+\s*", "", lines[0])
-        title = re.sub(r"^C\d\d\s*[-/]?\s*(variant\s*)?[a-h]\s*[:—-]*\s*", "", title, flags=re.I).strip()
+        title = re.sub(r"^C\d\d\s*[-/]?\s*(variant\s*)?[a-l]\s*[:—-]*\s*", "", title, flags=re.I).strip()
     last = meta.get("ran", [])
     kinds = sorted({k.replace("violation kind: ", "")[:60] for r in last for k in r.get("kinds", [])})
     hist = meta.get("history", [])
